@@ -99,6 +99,11 @@ def case_strategy(draw):
         # another evaluator (same instance metrics, other global metrics) is built and asked for its keys first:
         # state shared between evaluators must not reach this aggregator's header
         "prime_gmetrics": draw(st.sampled_from([None, None, [], ["DSC"], ["DSC", "IOU", "RVD"]])),
+        # the subjects after index `after` are written by a forked worker process / by a second aggregator object on
+        # the same file, optionally after an interim statistic was taken from the first aggregator
+        "split": {"after": draw(st.integers(1, 3)), "writer": draw(st.sampled_from(["fork", "second_object"])), "interim_stat": draw(st.booleans())} if draw(st.integers(0, 2)) == 0 else None,
+        # afterwards the file is continued by an evaluator that declares the same groups in another order
+        "reorder_continue": draw(st.booleans()),
     }
 
 
@@ -138,17 +143,49 @@ def check(case, stats):
         agg = H.lib_call(lambda: Panoptica_Aggregator(ev, output_file=out, log_times=case["log_times"]))
         ev2 = lib.evaluator(cfg)
         expected = {}
-        for s in case["subjects"]:
+        split = case.get("split")
+        if split and split["after"] >= len(case["subjects"]):
+            split = None
+        writer = agg
+        later = []
+        for idx, s in enumerate(case["subjects"]):
             if "rle" in s:
                 pred = np.concatenate([np.full(n, a) for a, b, n in s["rle"]]).astype(case["dtype"])
                 ref = np.concatenate([np.full(n, b) for a, b, n in s["rle"]]).astype(case["dtype"])
             else:
                 pred = np.array(s["pred"]).astype(case["dtype"])
                 ref = np.array(s["ref"]).astype(case["dtype"])
-            H.lib_call(agg.evaluate, pred, ref, s["name"])
+            if split and idx == split["after"]:
+                if split["interim_stat"]:
+                    H.lib_call(agg.make_statistic)
+                if split["writer"] == "second_object":
+                    writer = H.lib_call(lambda: Panoptica_Aggregator(lib.evaluator(cfg), output_file=out, log_times=case["log_times"]))
+            if split and idx >= split["after"] and split["writer"] == "fork":
+                later.append((pred, ref, s["name"]))
+            else:
+                H.lib_call(writer.evaluate, pred, ref, s["name"])
             res = H.lib_call(ev2.evaluate, pred, ref)
             with H.quiet():
                 expected[s["name"]] = {g: dict(res[g][0].to_dict()) for g in gnames}
+        if later:
+            import sys
+
+            sys.stdout.flush()
+            pid = os.fork()
+            if pid == 0:  # a worker process forked from the one that owns the aggregator
+                code = 0
+                try:
+                    for p_, r_, n_ in later:
+                        agg.evaluate(p_, r_, n_)
+                except BaseException:  # noqa
+                    code = 1
+                finally:
+                    os._exit(code)
+            if os.waitpid(pid, 0)[1] != 0:
+                raise Violation(f"a forked worker process failed to record subjects {[n for _, _, n in later]} through the inherited aggregator")
+            stats.count("subjects_written_by_a_forked_worker", len(later))
+        if split:
+            stats.count(f"split_sessions:{split['writer']}{'+interim_statistic' if split['interim_stat'] else ''}")
         if case["reader"] == "make_statistic":
             stat = H.lib_call(agg.make_statistic)
         else:
@@ -184,6 +221,35 @@ def check(case, stats):
                 for k in one[g]:
                     if k not in exp and k != "computation_time" and one[g][k] is not None:
                         raise Violation(f"subject {s['name']!r} group {g!r}: loader returns {one[g][k]!r} for {k}, which the result does not report")
+        if case.get("reorder_continue") and case["groups"] and len(case["groups"]) >= 2:
+            # the same file continued by an evaluator that declares the groups in reverse order: either refused, or the
+            # new subject's values must still be found under their own group and metric
+            cfg_r = {**cfg, "groups": list(reversed(case["groups"]))}
+            try:
+                with H.quiet():
+                    agg_r = Panoptica_Aggregator(lib.evaluator(cfg_r), output_file=out, log_times=case["log_times"])
+            except Exception:  # noqa - refusing a file written by another setup is the documented behaviour
+                stats.count("reordered_groups_refused")
+            else:
+                s0 = case["subjects"][0]
+                if "rle" in s0:
+                    pred = np.concatenate([np.full(n, a) for a, b, n in s0["rle"]]).astype(case["dtype"])
+                    ref = np.concatenate([np.full(n, b) for a, b, n in s0["rle"]]).astype(case["dtype"])
+                else:
+                    pred, ref = np.array(s0["pred"]).astype(case["dtype"]), np.array(s0["ref"]).astype(case["dtype"])
+                extra = "extra subject " + str(len(case["subjects"]))
+                while extra in expected:
+                    extra += "x"
+                H.lib_call(agg_r.evaluate, pred, ref, extra)
+                one = H.lib_call(H.lib_call(Panoptica_Statistic.from_file, out).get_one_subject, extra)
+                for g in gnames:
+                    for k, v in expected[s0["name"]][g].items():
+                        if k == "computation_time":
+                            continue
+                        want, got = expected_cell(v), one[g].get(k)
+                        if not ((want is None and got is None) or (want is not None and got is not None and got == want)):
+                            raise Violation(f"file continued by an evaluator declaring the groups in another order: subject {extra!r} group {g!r} metric {k}: result reports {v!r}, statistics loader returns {got!r}")
+                stats.count("reordered_groups_accepted_and_read_back")
         stats.record(case, len(gnames) >= 2 or special or missing,
                      [f"groups={len(gnames) if case['groups'] else 0}", f"subjects={len(case['subjects'])}", f"input={case['input']}"]
                      + (["special_name"] if special else []) + (["missing_value"] if missing else [])
